@@ -116,7 +116,7 @@ func c17Start(n int, maxCount int64) (*c17Cluster, error) {
 			RpcTimeout:         5,
 			RpcRetries:         1,
 			Servers:            append([]string{}, cl.servers...),
-			ShardManager:       cluster.ShardManagerConfig{RootDir: dir, ShardTimeout: 300, MaxCacheSize: -1},
+			ShardManager:       cluster.ShardManagerConfig{RootDir: filepath.Join(dir, "shard-root"), ShardTimeout: 300, MaxCacheSize: -1}, // not the node root
 			MaxShardSize:       1 << 30,
 			MaxShardPointCount: maxCount,
 			MaxSearchLimit:     c17MaxSearchLimit,
@@ -870,17 +870,31 @@ func c17CurateCase(r *rand.Rand) string {
 	// sub-multiset of the request (curateFailedPoints sizes its result with len(allIds)-len(successIds) and
 	// panics on a negative capacity otherwise -- outside the property's quantifier)
 	na := r.IntN(10)
-	all := make([]uuid.UUID, na)
-	for i := range all {
-		all[i] = pool[r.IntN(len(pool))]
-	}
 	var succ []uuid.UUID
-	for _, id := range all {
-		switch r.IntN(5) {
-		case 0, 1:
-			succ = append(succ, id)
-		case 2:
-			succ = append(succ, pool[r.IntN(len(pool))])
+	var all []uuid.UUID
+	if r.IntN(3) == 0 {
+		// larger requests of distinct ids with a chosen number of processed ones: 0..70, the sizes around powers of
+		// two over-weighted (15, 16, 17, 31, 32, 33, 63, 64, 65), processed ids in arrival (= arbitrary) order
+		nproc := []int{0, 1, 2, 7, 8, 9, 15, 16, 17, 31, 32, 33, 63, 64, 65, r.IntN(71)}[r.IntN(16)]
+		extra := r.IntN(4)
+		for i := 0; i < nproc+extra; i++ {
+			all = append(all, c17Uuid(r))
+		}
+		r.Shuffle(len(all), func(a, b int) { all[a], all[b] = all[b], all[a] })
+		succ = append(succ, all[:nproc]...)
+		r.Shuffle(len(all), func(a, b int) { all[a], all[b] = all[b], all[a] })
+	} else {
+		all = make([]uuid.UUID, na)
+		for i := range all {
+			all[i] = pool[r.IntN(len(pool))]
+		}
+		for _, id := range all {
+			switch r.IntN(5) {
+			case 0, 1:
+				succ = append(succ, id)
+			case 2:
+				succ = append(succ, pool[r.IntN(len(pool))])
+			}
 		}
 	}
 	r.Shuffle(len(succ), func(a, b int) { succ[a], succ[b] = succ[b], succ[a] })
